@@ -223,6 +223,9 @@ def r05_3(ctx):
     from .c06 import r06_3
 
     r06_3(ctx)  # an expression statement (`i++;`, `f(x);`) takes effect where it stands, not in front of the behaviour
+    from .c19 import r19_2
+
+    r19_2(ctx)  # the parts of a compound behaviour keep their statements in source order (text in front of the first marker stays in front)
     idx = get_index(ctx.env)
     r = Runner(idx)
     box = {}
@@ -315,6 +318,9 @@ def r05_4(ctx):
 
 @rule("R05.5", "C05", "Assignment.il_write: exactly one write, to the destination: SETL(dest, src) / WRITE_REG(bundle, dest op, src)", min_instances=3)
 def r05_5(ctx):
+    from .c12 import immediate_read_protocol
+
+    immediate_read_protocol(ctx)  # a statement that copies an immediate sees what earlier statements stored in it
     idx = get_index(ctx.env)
     et = idx.enum_table("EffectType")
     for kind, dcls, exp in (("SETL", "LocalVar", "SETL(<dest.vm_id()>, <src.il_read()>)"), ("SETG", "Register", "WRITE_REG(bundle, <dest.get_op_var()>, <src.il_read()>)")):
